@@ -19,6 +19,10 @@ type searchLinker struct {
 	symbols  *linker.Symbols
 	Reporter reporter.Reporter
 	resolver fileSource
+
+	// files currently being linked, to report import cycles instead of
+	// recursing until the stack is exhausted
+	linking map[*SearchResult]struct{}
 }
 
 func newLinker(src fileSource, errs reporter.Reporter) *searchLinker {
@@ -26,6 +30,7 @@ func newLinker(src fileSource, errs reporter.Reporter) *searchLinker {
 		symbols:  &linker.Symbols{},
 		Reporter: errs,
 		resolver: src,
+		linking:  map[*SearchResult]struct{}{},
 	}
 }
 
@@ -73,6 +78,12 @@ func (ll *searchLinker) linkResult(ctx context.Context, result *SearchResult) (l
 		return result.Linked, nil
 	}
 	log.WithField(ctx, "sourceFilename", result.Summary.SourceFilename).Debug("link-new")
+
+	if _, cycle := ll.linking[result]; cycle {
+		return nil, fmt.Errorf("import cycle: %s is (indirectly) imported by a file it imports", result.Summary.SourceFilename)
+	}
+	ll.linking[result] = struct{}{}
+	defer delete(ll.linking, result)
 
 	linked, err := ll._linkNewResult(ctx, result)
 	if err != nil {
